@@ -153,6 +153,17 @@ Definition integer_like (k : kind) (c : C) : bool :=
   end.
 Definition exponent_Z (c : C) : Z := Qnum (Qred (cre c)).
 
+(* left-to-right evaluation of a list of children, stopping at the first error *)
+Definition mapM {A B} (f : A -> B + err) : list A -> list B + err :=
+  fix go (l : list A) : list B + err :=
+    match l with
+    | [] => inl []
+    | x :: r => match f x with
+                | inr e => inr e
+                | inl v => match go r with inl vs => inl (v :: vs) | inr e => inr e end
+                end
+    end.
+
 Section Ops.
   Variable negpow : bool.          (* MathArray._negative_powers *)
   Variable inv : inv_oracle.
@@ -367,38 +378,32 @@ Section Ops.
   | ESum (first : expr) (rest : list (bool * expr))
   | EParen (e : expr).
 
+  (* children are evaluated left to right; the first error wins (eval_node evaluates every child before the action) *)
+  Definition lift (o : outcome) : val + err := match o with Ret v => inl v | Raise e => inr e end.
+  Definition arg_item (ev : expr -> outcome) (x : expr) : val + err := lift (ev x).
+  Definition pow_item (ev : expr -> outcome) (o : option expr) : option val + err :=
+    match o with
+    | None => inl None
+    | Some x => match ev x with Ret v => inl (Some v) | Raise e => inr e end
+    end.
+  Definition op_item (ev : expr -> outcome) (p : bool * expr) : bool * val + err :=
+    match ev (snd p) with Ret v => inl (fst p, v) | Raise e => inr e end.
+
   Fixpoint eval_expr (e : expr) : outcome :=
     match e with
     | EVal v => Ret v
     | EParen e' => eval_expr e'
     | ENeg k e' => bind (eval_expr e') (eval_negation k)
     | EArr items =>
-        (fix go (l : list expr) (acc : list val) : outcome :=
-           match l with
-           | [] => eval_array (rev acc)
-           | x :: r => bind (eval_expr x) (fun v => go r (v :: acc))
-           end) items []
+        match mapM (arg_item eval_expr) items with inl vs => eval_array vs | inr e => Raise e end
     | EPow items =>
-        (fix go (l : list (option expr)) (acc : list (option val)) : outcome :=
-           match l with
-           | [] => eval_power (rev acc)
-           | None :: r => go r (None :: acc)
-           | Some x :: r => bind (eval_expr x) (fun v => go r (Some v :: acc))
-           end) items []
+        match mapM (pow_item eval_expr) items with inl vs => eval_power vs | inr e => Raise e end
     | EProd first rest =>
         bind (eval_expr first) (fun f =>
-        (fix go (l : list (bool * expr)) (acc : list (bool * val)) : outcome :=
-           match l with
-           | [] => eval_product f (rev acc)
-           | (o, x) :: r => bind (eval_expr x) (fun v => go r ((o, v) :: acc))
-           end) rest [])
+          match mapM (op_item eval_expr) rest with inl vs => eval_product f vs | inr e => Raise e end)
     | ESum first rest =>
         bind (eval_expr first) (fun f =>
-        (fix go (l : list (bool * expr)) (acc : list (bool * val)) : outcome :=
-           match l with
-           | [] => eval_sum f (rev acc)
-           | (o, x) :: r => bind (eval_expr x) (fun v => go r ((o, v) :: acc))
-           end) rest [])
+          match mapM (op_item eval_expr) rest with inl vs => eval_sum f vs | inr e => Raise e end)
     end.
 End Ops.
 
